@@ -878,6 +878,9 @@ func lexHeaderParam(l *lexer) stateFn {
 	// Consume until the equals or end of the tag.
 	var lastNonSpace = l.pos
 	for ch := l.next(); ch != '=' && ch != '}' ; ch = l.next() {
+		if ch == eof {
+			return l.errorf("unclosed tag")
+		}
 		if !isSpace(ch) {
 			lastNonSpace = l.pos
 		}
@@ -896,7 +899,10 @@ func lexHeaderParam(l *lexer) stateFn {
 func lexCss(l *lexer) stateFn {
 	l.next()
 	l.ignore()
-	for l.next() != '}' {
+	for ch := l.next(); ch != '}'; ch = l.next() {
+		if ch == eof {
+			return l.errorf("unclosed tag")
+		}
 	}
 	l.backup()
 	l.emit(itemText)
